@@ -40,7 +40,9 @@ def c07(sn):
                 out.append(("bad-label", f"{where}: polarization label on a non-polarization"))
         elif kind == "vec":
             a = arr_np(payload)
-            if tag != "V":
+            if a.shape == (1, 1) and tag == "M":
+                pass  # a 1x1 array is both a column vector and a matrix
+            elif tag != "V":
                 out.append(("tag-mismatch", f"{where}: vector stored but level tag {tag}"))
             if a.shape != (n, 1):
                 out.append(("shape", f"{where}: vector shape {a.shape}, member dims {dims}"))
